@@ -29,7 +29,7 @@ SYMS = [0x00, 0x01, 0x3f, 0x40, 0x41, 0x7f, 0x80, 0xbf, 0xc0, 0xc3, 0xff]
 
 def describe(tier):
     return {
-        "rule": "per victim (8 TLS classes, 2 QUIC suites) every single fault: delete packet i; victim truncated after / "
+        "rule": "per victim (8 TLS classes, 2 QUIC suites) every single fault: delete packet i (thorough: also every PAIR of packets); victim truncated after / "
                 "started at packet i; every subset of its key-log lines removed, each/all secrets randomised; ServerHello "
                 "suite replaced by unsupported values; bit flips (bits 0 and 7" + ("" if tier == "quick" else ", all 8 bits") +
                 ") and 00/ff overwrites at " + ("every payload byte <12 then every 41st (ff only)" if tier == "quick" else "every payload byte") +
@@ -182,6 +182,11 @@ def run_case(case):
     if fam == "delete":
         for k, i in enumerate(vidx):
             check(pkts[:i] + pkts[i + 1:], kl, {"victim": vname, "fault": "delete", "pos": k}, True)
+        if tier == "thorough":
+            # fault pairs: every pair of victim packets lost
+            for (k1, i1), (k2, i2) in itertools.combinations(list(enumerate(vidx)), 2):
+                check([p for i, p in enumerate(pkts) if i not in (i1, i2)], kl,
+                      {"victim": vname, "fault": "delete_pair", "pos": [k1, k2]}, True)
     elif fam == "cut":
         for k in range(len(vidx) + 1):
             keep = set(vidx[:k])
